@@ -591,6 +591,97 @@ func c10reactive(progs [][]string) func() {
 	}
 }
 
+// c10failedAttempt: stanzas sent and not acknowledged, the connection lost, one reconnection attempt that fails
+// in the middle of the negotiation (the server goes away at `failStep`), then an attempt that succeeds. Through
+// all of this the stanzas are unacknowledged: they must still be held, and be sent again when the server's next
+// acknowledgement does not cover them.
+func c10failedAttempt(failStep string) func() {
+	return func() {
+		s := newSess(sessOpts{sm: true, smResume: true, serverCfg: func(k int, c *negCfg) {
+			if k == 1 {
+				inner := c.pick
+				c.pick = func(step string, alts ...string) string {
+					if step == failStep {
+						for _, a := range alts {
+							if a == "close" {
+								return a
+							}
+						}
+					}
+					return inner(step, alts...)
+				}
+			}
+		}})
+		if s.cl == nil {
+			return
+		}
+		if err := s.cl.Connect(); err != nil {
+			vrt.Fail("C10|harness|connect", "%v", err)
+			return
+		}
+		vrt.WaitIdle()
+		var sent []string
+		for i := 0; i < 2; i++ {
+			m := stanza.Message{Attrs: stanza.Attrs{To: "peer@example.org", Id: fmt.Sprintf("fa%d", i), Type: "chat"}, Body: "b"}
+			sent = append(sent, c10wire(m))
+			_ = s.cl.Send(m)
+		}
+		vrt.WaitIdle()
+		s.conn(0).close()
+		vrt.WaitIdle()
+		if err := s.cl.Connect(); err == nil {
+			vrt.Fail("C10|harness|attempt-did-not-fail", "the attempt whose %s step the server cuts did not fail", failStep)
+			return
+		}
+		vrt.WaitIdle()
+		if err := s.cl.Connect(); err != nil {
+			vrt.Fail("C10|harness|reconnect", "%v", err)
+			return
+		}
+		vrt.WaitIdle()
+		hist := fmt.Sprintf("presence + 2 stanzas sent, connection lost, one attempt cut by the server at %s, then a successful one", failStep)
+		held := func() bool {
+			q := c10queue(s.cl)
+			pos := 0
+			for _, h := range q {
+				if pos < len(sent) && h == sent[pos] {
+					pos++
+				}
+			}
+			return pos == len(sent)
+		}
+		if !held() {
+			vrt.Fail("C10|unacked-stanza-dropped-by-failed-attempt", "history [%s]: the held queue %q no longer holds the unacknowledged stanzas %q", hist, c10queue(s.cl), sent)
+			return
+		}
+		sc := s.conn(2)
+		if sc == nil {
+			vrt.Fail("C10|harness|no-third-connection", "")
+			return
+		}
+		sc.pending = nil
+		sc.drainNew()
+		resumed := len(s.recs) > 2 && s.recs[2].Resumed
+		if !resumed {
+			// a new session (the client chose not to resume): the old stanzas were never acknowledged, they still
+			// have to reach the server - nothing more is asserted here than that they are still held (above)
+			return
+		}
+		sc.send("<a xmlns='urn:xmpp:sm:3' h='1'/>")
+		vrt.WaitIdle()
+		var again []string
+		for _, u := range sc.drainNew() {
+			if u.kind == "element" && c10stanzaName(u.name) {
+				again = append(again, u.raw)
+			}
+		}
+		// (Connect sends an initial presence on the resumed session too: it follows the two stanzas)
+		if len(again) < len(sent) || strings.Join(again[:len(sent)], "|") != strings.Join(sent, "|") {
+			vrt.Fail("C10|retransmission-incomplete|after-failed-attempt", "history [%s], session resumed, <a h=1/>: sent again %q, want %q", hist, again, sent)
+		}
+	}
+}
+
 // c10resumed: stanzas sent, an acknowledgement for the first k of them, more stanzas sent, the connection
 // lost, the session resumed with <resumed h=j/> (j >= k: the server's count never goes back). Whatever the
 // client makes of that count, every stanza beyond max(k, j) is unacknowledged and must still be held, in order.
@@ -715,6 +806,10 @@ func TestVerifC10(t *testing.T) {
 	for _, progs := range [][][]string{{{"msg"}}, {{"raw", "msg"}}, {{"msg"}, {"raw"}}} {
 		scs = append(scs, hx.Scenario{Name: fmt.Sprintf("reactive-ack/%v", progs), Opt: vrt.Options{Bound: cb, Horizon: 50000},
 			Body: c10reactive(progs), Verdict: c10verdict})
+	}
+	// (a connection cut at the <resume/> step itself is C11's business: the resumption state is discarded then)
+	for _, step := range []string{"header1", "auth", "header3"} {
+		scs = append(scs, hx.Scenario{Name: "failed-attempt/" + step, Opt: vrt.Options{Bound: 0}, Body: c10failedAttempt(step), Verdict: c10verdict})
 	}
 	for _, acks := range [][]int{{2, 4}, {1, 4}, {4, 2}, {2, 2}} {
 		scs = append(scs, hx.Scenario{Name: fmt.Sprintf("conc-acks/%v", acks), Opt: vrt.Options{Bound: cb, Horizon: 50000, TouchOn: []string{"Uslice"}},
